@@ -252,7 +252,7 @@ def run(ctx):
         n_near_deep = ctx.pick(6, 16)
         n_pool_shallow = ctx.pick(60, None)
         _G.update(types=types, env=env, pool=pool, seed=ctx.seed, n_pool_deep=n_pool_deep, n_near_deep=n_near_deep, n_pool_shallow=n_pool_shallow)
-        nproc = min(16, os.cpu_count() or 1)
+        nproc = min(ctx.pick(8, 16), os.cpu_count() or 1)
         bound = (
             f"{len(types)} declared types: every well-formed type of nesting depth <= 2 over atoms "
             "{int,float,str,bool,bytes,Path,fileformats.generic.File} with Optional/Union (both member orders)/list/"
